@@ -282,6 +282,83 @@ def run(ctx):
         compare(ctx, sig, desc, res, out, nm, tol=1e-9 if cs["prec"] == 0 else None)
     ctx.streams["conditioning"] = len(cases)
 
+    # ---------------------------------------------------------------- processors with loss channels (layered simulator)
+    # The unconditioned distribution over the original modes comes from C07's model (enlarged lossless circuit, fid 70);
+    # conditioning on filter and heralds is done here exactly on those rationals, following `condition`.
+    from fractions import Fraction
+    from perceval.components import LC
+    from ..common import PYTH
+    nl = ctx.n(40, 500)
+    lcases, lreqs = [], []
+    for i in range(nl):
+        r = rng.fork(("lossy", i))
+        m = r.rint(2, 4)
+        comps = []
+        for sl in r.shuffle(["U"] * r.rint(1, 3) + ["L"] * r.rint(1, 2)):
+            if sl == "U":
+                lf = gen.rand_leaf(r, m)
+                comps.append(("U", r.rint(0, m - lf.k), lf))
+            else:
+                a_, b_, c_ = r.choice(PYTH[:8])
+                comps.append(("L", r.rint(0, m - 1), (Fraction(a_, c_), Fraction(b_, c_))))
+        nh = r.rint(0, min(2, m - 1))
+        heralds = {h: r.rint(0, 1) for h in sorted(r.shuffle(range(m))[:nh])}
+        free = [j for j in range(m) if j not in heralds]
+        inp = [0] * len(free)
+        for _ in range(r.rint(1, 2)):
+            inp[r.below(len(free))] += 1
+        flt = r.choice([0, 0, 1, sum(inp)])
+        full = [0] * m
+        for j, x in zip(free, inp):
+            full[j] = x
+        for h, v in heralds.items():
+            full[h] = v
+        enc = [[0, off, lf.k, lf.U] if k == "U" else [1, off, QI(lf[0]), QI(lf[1])] for k, off, lf in comps]
+        lcases.append((m, comps, heralds, free, inp, flt, full))
+        lreqs.append((70, [m, enc, full]))
+    louts = ctx.model.run(lreqs)
+    for (m, comps, heralds, free, inp, flt, full), out in zip(lcases, louts):
+        desc = {"m": m, "components": [f"add({off}, {lf.describe()})" if k == "U" else f"add({off}, LC({float(lf[1] ** 2)!r}))"
+                                       for k, off, lf in comps],
+                "heralds": {str(k): v for k, v in heralds.items()}, "input(non-herald modes)": inp, "filter": flt}
+        ctx.case(["lossy", str(desc)], len(heralds) > 0 and sum(heralds.values()) > 0, desc)
+        ctx.count("lossy-processor")
+        dist = {tuple(e[0]): un_q(e[1]) for e in out[1]}
+        F = flt + sum(heralds.values())
+        passing = {t: pr for t, pr in dist.items() if sum(t) >= F}
+        phys = sum(passing.values(), Fraction(0))
+        kept = {}
+        for t, pr in passing.items():
+            if all(t[h] == v for h, v in heralds.items()):
+                k_ = tuple(t[j] for j in free)
+                kept[k_] = kept.get(k_, Fraction(0)) + pr
+        mass = sum(kept.values(), Fraction(0))
+        logical = (mass / phys) if phys > 0 else Fraction(0)
+        exp = {k_: float(v / mass) for k_, v in kept.items()} if mass > 0 else {}
+        try:
+            p = pcvl.Processor("SLOS", m)
+            for k, off, lf in comps:
+                p.add(off, lf.build() if k == "U" else LC(float(lf[1] ** 2)))
+            for h, v in heralds.items():
+                p.add_herald(h, v)
+            p.min_detected_photons_filter(flt)
+            p.with_input(BS_(inp))
+            res = p.probs(precision=0)
+            rp, rl = float(res["physical_perf"]), float(res["logical_perf"])
+            rd = {tuple(k): float(v) for k, v in res["results"].items()}
+            if abs(rp - float(phys)) > 1e-9:
+                ctx.fail("probs-lossy-physical_perf", "processor with loss channels: physical performance differs from "
+                         "P(filter passes)", desc, float(phys), rp)
+            elif phys > 0 and mass > 0 and abs(rl - float(logical)) > 1e-9:
+                ctx.fail("probs-lossy-logical_perf", "processor with loss channels: logical performance differs from "
+                         "P(heralds | filter)", desc, float(logical), rl)
+            elif any(abs(exp.get(k_, 0.0) - rd.get(k_, 0.0)) > 1e-9 for k_ in set(exp) | set(rd)):
+                ctx.fail("probs-lossy-results", "processor with loss channels: conditioned distribution differs", desc,
+                         str(sorted(exp.items())), str(sorted(rd.items())))
+        except Exception as e:
+            ctx.fail(f"exception-lossy-{type(e).__name__}", f"raised {type(e).__name__}: {e}", desc)
+    ctx.streams["processors with loss channels"] = len(lcases)
+
     sample = reqs[:2]
     a = ctx.model.run(sample, jobs=1)
     b = ctx.model.vm_crosscheck(sample, "c04")
